@@ -229,6 +229,22 @@ theorem C08_exact_reader_refines_frame_model (fin : RErr) (sizes : List Nat) (n 
     simp only [drainExact, hfst, htake, hne, he, ite_false]
     rw [o3]
 
+/-- … and such a consumer always gets there: reading with non-empty buffers, it is stopped by an error after
+    at most (chunks + bytes of the source) successful calls, with the outcome `drainExact` states — the
+    frame-level summary is exactly what draining the reader object yields -/
+theorem C08_exact_reader_drains_to_frame_model (fin : RErr) (sizes : List Nat) (n : Nat) (cs : List Bytes)
+    (hpos : ∀ p ∈ sizes, 0 < p) (hlen : cs.length + cs.flatten.length < sizes.length) :
+    ∃ d n' rest e, consume read fin sizes [] (n : Int) cs = (d, n', rest, some e) ∧
+      (drainExact { pre := [], lim := n } cs fin).1 = (if e = .eof then .msg d else .raise e) ∧
+      (drainExact { pre := [], lim := n } cs fin).2.flatten = rest.flatten := by
+  have ht := consume_terminates fin sizes [] (n : Int) cs hpos hlen
+  cases hc : consume read fin sizes [] (n : Int) cs with
+  | mk d r1 =>
+    obtain ⟨n', rest, oe⟩ := r1
+    cases oe with
+    | none => rw [hc] at ht; exact absurd rfl ht
+    | some e => exact ⟨d, n', rest, e, rfl, C08_exact_reader_refines_frame_model fin sizes n cs d n' rest e hc⟩
+
 /-- the pinned reader (io.LimitReader): 2 bytes of a frame declared as 10, then a clean end -/
 theorem C08_exact_reader_pinned_truncates :
     consume readPinned .eof [8, 8, 8] [] 10 [[97, 98]] = ([97, 98], 8, [], some .eof) := by decide
@@ -259,3 +275,4 @@ end NettyVerif.C08
 #print axioms NettyVerif.C08.C08_exact_reader_pinned_truncates
 #print axioms NettyVerif.C08.C08_exact_reader_refines_frame_model
 #print axioms NettyVerif.C08.C08_guards_exact_reader
+#print axioms NettyVerif.C08.C08_exact_reader_drains_to_frame_model
